@@ -3,6 +3,7 @@ package main
 import (
 	"encoding/json"
 	"fmt"
+	"hash/fnv"
 	"math"
 	"math/big"
 	"sort"
@@ -16,8 +17,9 @@ import (
 // rebuild it exactly, including number precision and the type of nulls and
 // empty collections).
 type VD struct {
-	K  string          `json:"k"`            // s(tring) n(umber) b(ool) z(null) L(ist) S(et) T(uple) M(ap) O(bject)
-	S  string          `json:"s,omitempty"`  // string content | number name (table below) | "true"/"false"
+	K  string          `json:"k"`            // s(tring) n(umber) b(ool) z(null) L(ist) S(et) T(uple) M(ap) O(bject) | sized: sr (repeated string) nest (nested wrappers)
+	S  string          `json:"s,omitempty"`  // string content | number name (table below, or 1e<k> / -1e<k> / 1e-<k>) | "true"/"false" | sr: the pattern that is cycled | nest: the wrapper letters that are cycled, innermost first
+	N  int             `json:"n,omitempty"`  // sr: length in runes | nest: number of wrapper levels around E[0]
 	Ty json.RawMessage `json:"ty,omitempty"` // z: the type of the null; empty L/S/M: the element type
 	E  []VD            `json:"e,omitempty"`  // elements (L S T) or values (M O, parallel to Ks)
 	Ks []string        `json:"ks,omitempty"` // keys / attribute names (M O)
@@ -43,6 +45,50 @@ func vset0(t cty.Type) VD  { return VD{K: "S", Ty: tyJSON(t)} }
 func vmap0(t cty.Type) VD  { return VD{K: "M", Ty: tyJSON(t)} }
 func vmap(kv ...any) VD    { return kvd("M", kv) }
 func vobj(kv ...any) VD    { return kvd("O", kv) }
+
+// vsr: the first n runes of pat repeated for ever (the size dimension of
+// strings: one token whose length is n times a constant).
+func vsr(pat string, n int) VD { return VD{K: "sr", S: pat, N: n} }
+
+// vnest: leaf wrapped n times; level i (1 = innermost) uses wrapper letter
+// pat[(i-1) mod len(pat)] (the size dimension of containers: nesting depth).
+//
+//	T [x]   L list [x]   S set [x]   V [x, true]
+//	O {k = x}   M map {k = x}   W {a = x, b = true} (x is a non-last attribute at every level)
+func vnest(pat string, n int, leaf VD) VD { return VD{K: "nest", S: pat, N: n, E: []VD{leaf}} }
+
+func repString(pat string, n int) string {
+	pr := []rune(pat)
+	if len(pr) == 0 || n <= 0 {
+		return ""
+	}
+	out := make([]rune, n)
+	for i := range out {
+		out[i] = pr[i%len(pr)]
+	}
+	return string(out)
+}
+
+func wrapOnce(letter byte, x cty.Value) (cty.Value, error) {
+	switch letter {
+	case 'T':
+		return cty.TupleVal([]cty.Value{x}), nil
+	case 'L':
+		return cty.ListVal([]cty.Value{x}), nil
+	case 'S':
+		return cty.SetVal([]cty.Value{x}), nil
+	case 'V':
+		return cty.TupleVal([]cty.Value{x, cty.True}), nil
+	case 'O':
+		return cty.ObjectVal(map[string]cty.Value{"k": x}), nil
+	case 'M':
+		return cty.MapVal(map[string]cty.Value{"k": x}), nil
+	case 'W':
+		return cty.ObjectVal(map[string]cty.Value{"a": x, "b": cty.True}), nil
+	}
+	return cty.NilVal, fmt.Errorf("unknown wrapper letter %q", letter)
+}
+
 func kvd(k string, kv []any) VD {
 	d := VD{K: k}
 	for i := 0; i+1 < len(kv); i += 2 {
@@ -145,6 +191,31 @@ var numberTable = []numSpec{
 	{name: "2^600+1@1024", mk: func() cty.Value { return intExpr(600, 1, 1024) }, unspec: true},
 }
 
+// powerOfTenName is the inverse of lookupNumber for the powers of ten.
+func powerOfTenName(v cty.Value) (string, bool) {
+	if v.Type() != cty.Number || v.IsNull() || !v.IsKnown() {
+		return "", false
+	}
+	f := v.AsBigFloat()
+	if f.Sign() == 0 || f.IsInf() {
+		return "", false
+	}
+	txt := f.Text('e', -1) // d.ddde±xx
+	mant, exp, ok := strings.Cut(txt, "e")
+	if !ok || (mant != "1" && mant != "-1") {
+		return "", false
+	}
+	k, err := strconv.Atoi(exp)
+	if err != nil {
+		return "", false
+	}
+	name := strings.TrimSuffix(mant, "1") + "1e" + strconv.Itoa(k)
+	if _, ok := lookupNumber(name); !ok {
+		return "", false
+	}
+	return name, true
+}
+
 var numberByName = func() map[string]numSpec {
 	m := map[string]numSpec{}
 	for _, n := range numberTable {
@@ -152,6 +223,24 @@ var numberByName = func() map[string]numSpec {
 	}
 	return m
 }()
+
+// lookupNumber: the table, plus the powers of ten 1e<k>, -1e<k>, 1e-<k>
+// (nearest 512-bit value), whose source text is k+1 digits / a minus sign and
+// k+1 digits / "0." and k digits: the size dimension of number tokens.
+func lookupNumber(name string) (numSpec, bool) {
+	if ns, ok := numberByName[name]; ok {
+		return ns, true
+	}
+	rest := strings.TrimPrefix(name, "-")
+	if !strings.HasPrefix(rest, "1e") {
+		return numSpec{}, false
+	}
+	k, err := strconv.Atoi(rest[2:])
+	if err != nil || k < -1000000 || k > 1000000 || rest[2:] != strconv.Itoa(k) {
+		return numSpec{}, false
+	}
+	return numSpec{name: name, mk: func() cty.Value { return dec512(name) }}, true
+}
 
 // ---- building ---------------------------------------------------------
 
@@ -176,11 +265,30 @@ func build(d VD) (v cty.Value, unspecNum bool, err error) {
 	case "s":
 		return cty.StringVal(d.S), false, nil
 	case "n":
-		ns, ok := numberByName[d.S]
+		ns, ok := lookupNumber(d.S)
 		if !ok {
 			return cty.NilVal, false, fmt.Errorf("unknown number %q", d.S)
 		}
 		return ns.mk(), ns.unspec, nil
+	case "sr":
+		if d.N < 0 || d.N > 1<<20 || (d.N > 0 && d.S == "") {
+			return cty.NilVal, false, fmt.Errorf("bad repeated string")
+		}
+		return cty.StringVal(repString(d.S, d.N)), false, nil
+	case "nest":
+		if len(d.E) != 1 || d.S == "" || d.N < 0 || d.N > 1<<12 {
+			return cty.NilVal, false, fmt.Errorf("bad nest descriptor")
+		}
+		cur, u, err := build(d.E[0])
+		if err != nil {
+			return cty.NilVal, false, err
+		}
+		for i := 0; i < d.N; i++ {
+			if cur, err = wrapOnce(d.S[i%len(d.S)], cur); err != nil {
+				return cty.NilVal, false, err
+			}
+		}
+		return cur, u, nil
 	case "b":
 		return cty.BoolVal(d.S == "true"), false, nil
 	case "z":
@@ -248,11 +356,19 @@ func build(d VD) (v cty.Value, unspecNum bool, err error) {
 func compact(d VD) string {
 	switch d.K {
 	case "s":
-		return strconv.QuoteToASCII(d.S)
+		return abbrev(d.S)
 	case "n":
 		return d.S
 	case "b":
 		return d.S
+	case "sr":
+		return fmt.Sprintf("sr(%s*%d)", strconv.QuoteToASCII(d.S), d.N)
+	case "nest":
+		leaf := "?"
+		if len(d.E) == 1 {
+			leaf = compact(d.E[0])
+		}
+		return fmt.Sprintf("nest(%s*%d,%s)", d.S, d.N, leaf)
 	case "z":
 		t, err := d.ty()
 		if err != nil {
@@ -267,7 +383,7 @@ func compact(d VD) string {
 			if i < len(d.Ks) {
 				k = d.Ks[i]
 			}
-			parts = append(parts, strconv.QuoteToASCII(k)+":"+compact(e))
+			parts = append(parts, abbrev(k)+":"+compact(e))
 		} else {
 			parts = append(parts, compact(e))
 		}
@@ -319,17 +435,99 @@ func tyShort(t cty.Type) string {
 	return t.FriendlyName()
 }
 
+// abbrev quotes a string for use in a case identifier; a long string is cut
+// to its first runes plus its length and a hash (identifiers stay unique and
+// stable, and short).
+func abbrev(s string) string {
+	if len(s) <= 48 {
+		return strconv.QuoteToASCII(s)
+	}
+	rs := []rune(s)
+	h := fnv.New32a()
+	h.Write([]byte(s))
+	return fmt.Sprintf("%s..(%d runes,%08x)", strconv.QuoteToASCII(string(rs[:8])), len(rs), h.Sum32())
+}
+
+// sizeLens: the token lengths of the size dimension: every length up to 16 and
+// the three lengths around each power of two 2^5 .. 2^maxPow.
+func sizeLens(maxPow int) []int {
+	var out []int
+	for n := 1; n <= 16; n++ {
+		out = append(out, n)
+	}
+	for k := 5; k <= maxPow; k++ {
+		out = append(out, 1<<k-1, 1<<k, 1<<k+1)
+	}
+	return out
+}
+
+// shrinkString proposes strictly shorter strings: every single-rune deletion
+// for a short string; for a long one its prefixes at the lengths of the size
+// dimension (shortest first) and the string without its last rune.
+func shrinkString(s string) []string {
+	rs := []rune(s)
+	var out []string
+	seen := map[string]bool{s: true}
+	add := func(c string) {
+		if !seen[c] {
+			seen[c] = true
+			out = append(out, c)
+		}
+	}
+	if len(rs) <= 16 {
+		for i := range rs {
+			add(string(append(append([]rune{}, rs[:i]...), rs[i+1:]...)))
+		}
+		return out
+	}
+	for _, n := range sizeLens(20) {
+		if n >= len(rs) {
+			break
+		}
+		add(string(rs[:n]))
+	}
+	add(string(rs[:len(rs)-1]))
+	return out
+}
+
 // shrinkVD proposes strictly smaller descriptors.
 func shrinkVD(d VD) []VD {
 	var out []VD
 	switch d.K {
 	case "s":
-		rs := []rune(d.S)
-		for i := range rs {
-			out = append(out, vs(string(append(append([]rune{}, rs[:i]...), rs[i+1:]...))))
+		for _, c := range shrinkString(d.S) {
+			out = append(out, vs(c))
 		}
-		if len(rs) == 0 {
+		if d.S == "" {
 			out = append(out, vb(true))
+		}
+		return out
+	case "sr":
+		for _, n := range sizeLens(20) {
+			if n >= d.N {
+				break
+			}
+			out = append(out, vsr(d.S, n))
+		}
+		if d.N > 1 {
+			out = append(out, vsr(d.S, d.N-1))
+		}
+		if d.S != "a" {
+			out = append(out, vsr("a", d.N))
+		}
+		return out
+	case "nest":
+		if len(d.E) != 1 {
+			return nil
+		}
+		for n := 0; n < d.N; n++ {
+			out = append(out, vnest(d.S, n, d.E[0]))
+		}
+		if len(d.S) > 1 {
+			out = append(out, vnest(d.S[:1], d.N, d.E[0]), vnest(d.S[1:], d.N, d.E[0]))
+		}
+		for _, c := range shrinkVD(d.E[0]) {
+			out = append(out, vnest(d.S, d.N, c))
 		}
 		return out
 	case "b":
@@ -367,11 +565,10 @@ func shrinkVD(d VD) []VD {
 	}
 	// one key shrunk
 	for i := range d.Ks {
-		rs := []rune(d.Ks[i])
-		for j := range rs {
+		for _, c := range shrinkString(d.Ks[i]) {
 			nd := VD{K: d.K, E: d.E}
 			nd.Ks = append([]string{}, d.Ks...)
-			nd.Ks[i] = string(append(append([]rune{}, rs[:j]...), rs[j+1:]...))
+			nd.Ks[i] = c
 			out = append(out, nd)
 		}
 	}
